@@ -26,10 +26,14 @@ import (
 	"encoding/json"
 	"fmt"
 	"math/rand"
+	"net"
+	"net/http"
+	"net/http/httptest"
 	"sort"
 	"strconv"
 	"strings"
 	"sync"
+	"sync/atomic"
 	"testing"
 	"time"
 
@@ -42,6 +46,9 @@ type c14Kind struct {
 	Must  bool     // structural fault: no session may result
 	Only  []string // positions it applies to (nil = all)
 	Heavy bool     // stall / 16 MB: sampled thinly in the quick tier
+	// GiveUp: the provider stalls and the CLIENT of the proxy gives up (request context cancelled) while it does;
+	// the client never sees that response (no cookie of it reaches the browser). Refresh and re-validation flows only.
+	GiveUp bool
 	// exactly one of:
 	Reply  func(pos string, cx *c14Ctx) *vfIdPReply
 	Mutate func(resp map[string]interface{})
@@ -123,6 +130,9 @@ func c14Kinds() []c14Kind {
 		{Name: "stall-then-500", Must: true, Heavy: true, Reply: func(string, *c14Ctx) *vfIdPReply {
 			return &vfIdPReply{Status: 500, Body: []byte(`{"error":"timeout"}`), Stall: 1200 * time.Millisecond}
 		}},
+		{Name: "stall-client-gives-up", Must: true, GiveUp: true, Only: []string{"token.refresh", "userinfo"}, Reply: func(string, *c14Ctx) *vfIdPReply {
+			return &vfIdPReply{Status: 401, Body: []byte(`{"error":"invalid_token"}`), Stall: 2 * time.Second}
+		}},
 		{Name: "empty-body-200", Must: true, Reply: st(200, "application/json", ``)},
 		{Name: "truncated-json", Must: true, Reply: func(pos string, _ *c14Ctx) *vfIdPReply {
 			return &vfIdPReply{Status: 200, ContentType: "application/json", Body: []byte(truncated[pos])}
@@ -184,7 +194,7 @@ type c14Typed struct {
 	Name string
 	Set  func(c map[string]interface{})
 	Must bool // cannot satisfy the checks of C04 / the nonce check: must be refused
-	Azp  bool // needs --oidc-audience-claim=azp
+	Azp  bool // runs on the instance with --oidc-audience-claim=azp --oidc-audience-claim=aud (aud matches: the FIRST present claim decides)
 	// NoNonce: the mutation concerns the nonce and only exists at the login callback
 	LoginOnly bool
 }
@@ -204,6 +214,8 @@ func c14TypedKinds() []c14Typed {
 		{Name: "azp=[1,2]", Must: true, Azp: true, Set: set("azp", []interface{}{1, 2})},
 		{Name: "azp=[cid,1]", Must: true, Azp: true, Set: set("azp", []interface{}{"cid", 1})},
 		{Name: "azp=object", Must: true, Azp: true, Set: set("azp", obj)},
+		{Name: "azp=[other,7]", Must: true, Azp: true, Set: set("azp", []interface{}{"some-other-client", 7})},
+		{Name: "azp=float", Must: true, Azp: true, Set: set("azp", 1.5)},
 		{Name: "azp=true", Must: true, Azp: true, Set: set("azp", true)},
 		{Name: "azp=null", Must: true, Azp: true, Set: set("azp", nil)},
 		{Name: "groups=object", Set: set("groups", obj)},
@@ -905,6 +917,12 @@ func (r *c14Runner) refreshCase(cw *c14World, c c14Case) {
 	if c.kind != nil {
 		disarm = cw.arm(c, cx)
 	}
+	if c.kind != nil && c.kind.GiveUp {
+		r.refreshGiveUp(cw, p, c, st, disarm, steps, refreshedEmail)
+		cw.setMint(nil)
+		r.maybeClean(cw, p, c, steps)
+		return
+	}
 	obs := cw.observe(func(q *vfReq) *vfResp { return st.b.Send(p, q) })
 	fired := disarm()
 	keys1 := cw.redisKeys()
@@ -997,6 +1015,320 @@ func c14ClaimsOr(c map[string]interface{}, k string) interface{} {
 	return c[k]
 }
 
+// c14GiveUpRequest: one request of the browser whose client gives up after 300 ms; nothing of the response reaches the jar.
+func c14GiveUpRequest(p *vfProxy, b *vfBrowser) *vfResp {
+	q := vfGET("/oauth2/userinfo")
+	if cs := b.Jar.For("proxy.test", "/oauth2/userinfo", false); len(cs) > 0 {
+		q.H("Cookie", vfCookieHeader(cs))
+	}
+	q.GiveUpAfter = 300 * time.Millisecond
+	return p.Do(q)
+}
+
+// refreshGiveUp: the provider stalls during the refresh conversation and the client walks away. The next request of the
+// same browser (fault removed) must either go through a refresh attempt of its own or be unauthenticated: a session that
+// is served without any refresh attempt had its refresh timer reset by a conversation that never completed.
+func (r *c14Runner) refreshGiveUp(cw *c14World, p *vfProxy, c c14Case, st *c14Stale, disarm func() int, steps []string, refreshedEmail string) {
+	run := r.run
+	resp := c14GiveUpRequest(p, st.b)
+	fired := disarm()
+	steps = append(steps, "the client gives up after 300 ms while the provider stalls (response never seen)", "fault removed; GET /oauth2/userinfo, GET /app/x by the same browser")
+	a0, _ := cw.w.IdP.RefreshGrants()
+	o2 := cw.observe(func(q *vfReq) *vfResp { return st.b.Send(p, q) })
+	a1, _ := cw.w.IdP.RefreshGrants()
+	cell := ""
+	if fired > 0 {
+		cell = fmt.Sprintf("%s|%s|%s|%s", c.Flow, c.Pos, c.Kind, c.Store)
+	} else {
+		run.Count("fault_position_not_reached", 1)
+	}
+	run.Eval(cell)
+	run.Count("cases_"+c.Flow, 1)
+	rep := map[string]interface{}{"given_up_request_status": resp.Code, "after_fault_removed": o2, "refresh_grants_attempted_by_second_request": a1 - a0}
+	okEmail := o2.Email == st.email || o2.Email == refreshedEmail || o2.Email == "profile-"+st.sub+"@profile.test"
+	switch {
+	case resp.Panic != "" || o2.Panic != "":
+		r.violation("c14:panic", "panic: "+vfTrunc(resp.Panic+o2.Panic, 300), cw, p, c, fired, steps, rep, nil)
+	case fired > 0 && o2.session() && a1 == a0:
+		r.violation("c14:session-extended-by-faulted-refresh", "the client gave up while the provider stalled; the stale session is served afterwards WITHOUT any refresh attempt (its refresh timer was reset by a conversation that never completed)", cw, p, c, fired, steps, rep, nil)
+	case o2.UserinfoCode == 200 && (!okEmail || o2.User != st.sub):
+		r.violation("c14:wrong-identity-after-odd-response", fmt.Sprintf("after the abandoned refresh the session names user %q e-mail %q", o2.User, o2.Email), cw, p, c, fired, steps, rep, nil)
+	}
+}
+
+// ---- legacy provider: re-validation through the validation URL -------------------------------------------------
+
+func (cw *c14World) makeLegacyStale(store string) *c14Stale {
+	p := cw.px[store]
+	cw.seq++
+	sub := fmt.Sprintf("lv-w%d-%d", cw.idx, cw.seq)
+	st := &c14Stale{b: vfNewBrowser(""), sub: sub, email: sub + "@legacy.test"}
+	id := vfIdentity{Sub: sub, Email: st.email, Profile: map[string]interface{}{"sub": sub, "email": st.email, "preferred_username": "pu-" + sub}}
+	if _, _, err := st.b.Login(p, id, "/"); err != nil {
+		return nil
+	}
+	_, st.at = cw.lastTokens()
+	return st
+}
+
+// legacyCase: a provider without refresh support re-validates a stale session at its validation URL (the rig's
+// /userinfo: 200 for a live access token). The validation call is answered with the fault; then the fault is removed and
+// the endpoint says 401 (token revoked). A validation that did not succeed must neither let the request through nor
+// extend the session: the same browser's next request must not be served.
+func (r *c14Runner) legacyCase(cw *c14World, c c14Case) {
+	run := r.run
+	p := cw.px[c.Store]
+	if len(cw.stale[c.Store]) == 0 {
+		run.Eval("")
+		run.Inconclusive("rig: no stale legacy session left")
+		return
+	}
+	st := cw.stale[c.Store][0]
+	cw.stale[c.Store] = cw.stale[c.Store][1:]
+	if st == nil {
+		run.Eval("")
+		run.Inconclusive("rig: the ordinary login that prepares a stale legacy session failed")
+		return
+	}
+	cx := &c14Ctx{Sub: st.sub, Email: st.email, Issuer: cw.w.IdP.Issuer, Profile: map[string]interface{}{"sub": st.sub, "email": st.email}}
+	// the validation endpoint only has a status: a 200 — whatever its body — IS a successful validation there
+	probe := c.kind.Reply(c.Pos, cx)
+	must := c.kind.Must && (probe.Reset || (probe.Status != 0 && probe.Status != 200))
+	steps := []string{"legacy provider (keycloak, validate-url = the rig's /userinfo), session of " + st.sub + " issued ten minutes ago (cookie-refresh 1m)"}
+	disarm := cw.arm(c, cx)
+	var obs c14Obs
+	if c.kind.GiveUp {
+		resp := c14GiveUpRequest(p, st.b)
+		obs.Panic = resp.Panic
+		steps = append(steps, "GET /oauth2/userinfo; the validation call stalls, the client gives up after 300 ms (response never seen)")
+	} else {
+		obs = cw.observe(func(q *vfReq) *vfResp { return st.b.Send(p, q) })
+		steps = append(steps, "GET /oauth2/userinfo, GET /app/x while the validation endpoint answers with the fault")
+	}
+	fired := disarm()
+	// fault removed; the provider now says: this access token is revoked
+	cw.w.IdP.Set(func(cf *vfIdPCfg) {
+		cf.Hook = func(ev *vfIdPEvent) *vfIdPReply {
+			if ev.Kind == "userinfo" && ev.Auth == "Bearer "+st.at {
+				return &vfIdPReply{Status: 401, Body: []byte(`{"error":"invalid_token"}`)}
+			}
+			return nil
+		}
+	})
+	o2 := cw.observe(func(q *vfReq) *vfResp { return st.b.Send(p, q) })
+	cw.w.IdP.Set(func(cf *vfIdPCfg) { cf.Hook = nil })
+	steps = append(steps, "fault removed, the validation endpoint now answers 401 for this access token; GET /oauth2/userinfo, GET /app/x by the same browser")
+	cell := ""
+	if fired > 0 {
+		cell = fmt.Sprintf("%s|%s|%s|%s", c.Flow, c.Pos, c.Kind, c.Store)
+	} else {
+		run.Count("fault_position_not_reached", 1)
+	}
+	run.Eval(cell)
+	run.Count("cases_"+c.Flow, 1)
+	rep := map[string]interface{}{"with_fault": obs, "after_fault_removed_and_token_revoked": o2}
+	switch {
+	case obs.Panic != "" || o2.Panic != "":
+		r.violation("c14:panic", "panic: "+vfTrunc(obs.Panic+o2.Panic, 300), cw, p, c, fired, steps, rep, nil)
+	case fired > 0 && must && obs.session():
+		r.violation("c14:served-after-faulted-validation", fmt.Sprintf("the stale session was served (userinfo %d, upstream reached %v) although its re-validation was answered with the fault", obs.UserinfoCode, obs.UpHit), cw, p, c, fired, steps, rep, nil)
+	case fired > 0 && must && o2.session():
+		r.violation("c14:session-extended-by-faulted-validation", fmt.Sprintf("the validation never succeeded, yet the same browser's next request is served (userinfo %d, upstream reached %v) while the provider says the token is revoked: the faulted conversation reset the session's refresh timer", o2.UserinfoCode, o2.UpHit), cw, p, c, fired, steps, rep, nil)
+	case must:
+		run.Count("legacy_not_served_after_faulted_validation", 1)
+	default:
+		run.Count("legacy_tolerated_200_answers", 1)
+	}
+	// liveness on the same instance
+	cw.seq++
+	sub := fmt.Sprintf("lclean-w%d-%d", cw.idx, cw.seq)
+	var o3 c14Obs
+	var err error
+	for try := 0; try < 3; try++ {
+		b := vfNewBrowser("")
+		if _, _, err = b.Login(p, vfIdentity{Sub: sub, Email: sub + "@legacy.test", Profile: map[string]interface{}{"sub": sub, "email": sub + "@legacy.test"}}, "/"); err == nil {
+			o3 = cw.observe(func(q *vfReq) *vfResp { return b.Send(p, q) })
+			if o3.UserinfoCode == 200 && o3.UpHit {
+				break
+			}
+		}
+		time.Sleep(50 * time.Millisecond)
+	}
+	run.Count("clean_logins", 1)
+	if err != nil || o3.UserinfoCode != 200 || !o3.UpHit || o3.Email != sub+"@legacy.test" {
+		r.violation("c14:stuck-after-fault:login", fmt.Sprintf("after the fault was removed an ordinary login on the legacy instance fails or is not usable (%v, userinfo %d)", err, o3.UserinfoCode), cw, p, c, fired, steps, o3, nil)
+	}
+}
+
+// ---- leak monitor ------------------------------------------------------------------------------------------------
+
+type c14LeakServer struct {
+	srv  *httptest.Server
+	open int64
+	mode int32 // 0 healthy, 1 oversized with Content-Length, 2 Content-Length larger than what is sent (then close)
+	hits int64
+}
+
+func c14NewLeakServer() *c14LeakServer {
+	ls := &c14LeakServer{}
+	big := []byte(`{"email":"someone@leak.test","padding":"` + strings.Repeat("a", 16<<20)) // 16 MB, announced by Content-Length, never a complete document
+	ls.srv = httptest.NewUnstartedServer(http.HandlerFunc(func(w http.ResponseWriter, r *http.Request) {
+		atomic.AddInt64(&ls.hits, 1)
+		switch atomic.LoadInt32(&ls.mode) {
+		case 1:
+			w.Header().Set("Content-Type", "application/json")
+			w.Header().Set("Content-Length", strconv.Itoa(len(big)))
+			w.WriteHeader(200)
+			_, _ = w.Write(big)
+		case 2:
+			w.Header().Set("Content-Type", "application/json")
+			w.Header().Set("Content-Length", "100000")
+			w.WriteHeader(200)
+			_, _ = w.Write([]byte(`{"email":"short@leak.test"`))
+			if f, ok := w.(http.Flusher); ok {
+				f.Flush()
+			}
+			if hj, ok := w.(http.Hijacker); ok {
+				if c, _, err := hj.Hijack(); err == nil {
+					_ = c.Close()
+				}
+			}
+		default:
+			w.Header().Set("Content-Type", "application/json")
+			_, _ = w.Write([]byte(`{"email":"someone@leak.test","preferred_username":"someone"}`))
+		}
+	}))
+	ls.srv.Config.ConnState = func(c net.Conn, st http.ConnState) {
+		switch st {
+		case http.StateNew:
+			atomic.AddInt64(&ls.open, 1)
+		case http.StateClosed, http.StateHijacked:
+			atomic.AddInt64(&ls.open, -1)
+		}
+	}
+	ls.srv.Start()
+	return ls
+}
+
+// leakMonitor: "keeps handling other requests": faulted conversations must not each leave a connection (descriptor,
+// transport goroutines) behind. Open connections at the provider's servers are counted at quiescence before and after
+// N faulted conversations; the idle keep-alive pool accounts for a small constant, growth with N is a leak.
+// leakSetup builds the monitor's world and instance (instances are built before any request is served).
+func (r *c14Runner) leakSetup(t *testing.T) (run func(), closeAll func()) {
+	w := vfNewWorld(t)
+	ls := c14NewLeakServer()
+	iss := w.IdP.Issuer
+	p := w.MustProxy("--skip-oidc-discovery=true", "--oidc-jwks-url="+iss+"/jwks", "--login-url="+iss+"/authorize", "--redeem-url="+iss+"/token", "--profile-url="+ls.srv.URL+"/userinfo", "--cookie-refresh=1m")
+	return func() { r.leakMonitor(w, ls, p) }, func() { ls.srv.CloseClientConnections(); ls.srv.Close(); w.Close() }
+}
+
+func (r *c14Runner) leakMonitor(w *vfWorld, ls *c14LeakServer, p *vfProxy) {
+	run := r.run
+	open := func() int64 { return w.IdP.OpenConns() + atomic.LoadInt64(&ls.open) }
+	login := func(sub string) (*vfBrowser, *vfResp, error) {
+		b := vfNewBrowser("")
+		_, cb, err := b.Login(p, vfIdentity{Sub: sub, PreferredUsername: "", Email: ""}, "/") // no e-mail in the token: profile lookup
+		return b, cb, err
+	}
+	for k := 0; k < 4; k++ {
+		if _, _, err := login(fmt.Sprintf("leak-warm-%d", k)); err != nil {
+			run.Inconclusive("rig: leak monitor warm-up login failed: " + vfTrunc(err.Error(), 80))
+			return
+		}
+	}
+	settle := func(limit int64) int64 {
+		var n int64
+		for k := 0; k < 40; k++ {
+			if n = open(); n <= limit {
+				break
+			}
+			time.Sleep(50 * time.Millisecond)
+		}
+		return n
+	}
+	time.Sleep(100 * time.Millisecond)
+	baseline := open()
+	const allowance = 4
+	n := run.Env.Pick(20, 60)
+	var faultedCodes sync.Map
+	w.IdP.Set(func(c *vfIdPCfg) {
+		c.Hook = func(ev *vfIdPEvent) *vfIdPReply {
+			if ev.Kind == "token.code" {
+				if v, ok := faultedCodes.Load(ev.Params.Get("code")); ok {
+					switch v.(int) {
+					case 0:
+						return &vfIdPReply{Status: 200, ContentType: "application/json", Body: c14Junk16MB}
+					case 1:
+						return &vfIdPReply{Reset: true}
+					default:
+						return &vfIdPReply{Status: 200, ContentType: "application/json", Body: []byte(`{"access_token":"at-1","token_type":"Bearer","id_token":"eyJhbGci`)}
+					}
+				}
+			}
+			return nil
+		}
+	})
+	var sessions int64
+	var peak int64
+	kinds := []string{"userinfo|oversized-with-content-length", "userinfo|content-length-larger-than-body", "token.code|16MB-junk", "token.code|reset", "token.code|truncated-json"}
+	for round, mode := range []int32{1, 2, 0} {
+		// userinfo modes are global to the leak server, so each mode gets its own batch; token faults are per code
+		cnt := n * 2 / 5
+		if mode == 0 {
+			cnt = n - 2*(n*2/5)
+		}
+		atomic.StoreInt32(&ls.mode, mode)
+		vfParallel(cnt, 4, func(i int) {
+			b := vfNewBrowser("")
+			sub := fmt.Sprintf("leak-%d-%d", round, i)
+			l, err := b.StartLogin(p, vfIdentity{Sub: sub}, "/")
+			if err != nil {
+				return
+			}
+			kind := kinds[round]
+			if mode == 0 {
+				faultedCodes.Store(l.Code, i%3)
+				kind = kinds[2+i%3]
+			}
+			cb := b.Get(p, l.CallbackTarget(p))
+			o := c14ObserveBrowser(w, p, b)
+			run.Eval("leak-monitor|" + kind)
+			run.Count("cases_leak-monitor", 1)
+			if cb.Panic != "" || o.Panic != "" {
+				run.Violation("c14:panic", "panic in a faulted conversation of the leak monitor: "+vfTrunc(cb.Panic+o.Panic, 300), map[string]interface{}{"flags": p.Flags, "kind": kind})
+			}
+			if o.session() || len(c14SessionCookies(cb.SetCookies())) > 0 {
+				atomic.AddInt64(&sessions, 1)
+				run.Violation("c14:session-after-faulted-conversation:leak-monitor", fmt.Sprintf("a session exists after a login whose %s (callback status %d)", kind, cb.Code), map[string]interface{}{"flags": p.Flags, "kind": kind, "observed": o})
+			}
+			if x := open(); x > atomic.LoadInt64(&peak) {
+				atomic.StoreInt64(&peak, x)
+			}
+		})
+	}
+	atomic.StoreInt32(&ls.mode, 0)
+	w.IdP.Set(func(c *vfIdPCfg) { c.Hook = nil })
+	after := settle(baseline + allowance)
+	run.Extra("leak_monitor", map[string]interface{}{"faulted_conversations": n, "open_connections_baseline": baseline, "peak": atomic.LoadInt64(&peak), "after_settling": after, "allowance": allowance, "profile_endpoint_hits": atomic.LoadInt64(&ls.hits)})
+	run.Count("leak_monitor_conversations", int64(n))
+	if after > baseline+allowance {
+		run.Violation("c14:connections-leaked-by-faulted-conversations", fmt.Sprintf("%d faulted conversations (oversized / short / reset / truncated answers) left %d connections open at the provider's servers after settling (%d before, allowance for the idle pool %d): connections, descriptors and transport goroutines are not released", n, after, baseline, allowance),
+			map[string]interface{}{"flags": p.Flags, "faulted_conversations": n, "open_before": baseline, "open_after_settling": after, "peak": atomic.LoadInt64(&peak),
+				"steps": "profile URL served by a server of the check: answers 200 with Content-Length 16 MB (batch 1) / Content-Length 100000 but 26 bytes then close (batch 2); token endpoint: 16 MB junk, reset, truncated JSON (batch 3); logins with an ID token without e-mail so that the profile URL is consulted; connections counted with http.Server.ConnState / the rig IdP's OpenConns()"})
+	}
+	// liveness
+	if b, _, err := login("leak-after"); err != nil {
+		run.Violation("c14:stuck-after-fault:login", "leak monitor: an ordinary login fails after the faulted conversations: "+vfTrunc(err.Error(), 200), map[string]interface{}{"flags": p.Flags})
+	} else if o := c14ObserveBrowser(w, p, b); o.UserinfoCode != 200 || o.Email != "someone@leak.test" {
+		run.Violation("c14:stuck-after-fault:request", "leak monitor: the session of a fresh login is not usable after the faulted conversations", map[string]interface{}{"flags": p.Flags, "observed": o})
+	}
+}
+
+func c14ObserveBrowser(w *vfWorld, p *vfProxy, b *vfBrowser) c14Obs {
+	cw := &c14World{w: w}
+	return cw.observe(func(q *vfReq) *vfResp { return b.Send(p, q) })
+}
+
 // ---- start-up discovery ------------------------------------------------------------------------------------------
 
 func (r *c14Runner) startupCase(cw *c14World, c c14Case) {
@@ -1042,7 +1374,7 @@ func (r *c14Runner) startupCase(cw *c14World, c c14Case) {
 func TestVerif_C14(t *testing.T) {
 	run := vfNewRun(t, "C14", "fault_enumeration")
 	run.SetRule("flows {login (all claims in the token; key-set fetch forced by a new key id), login with profile lookup (e-mail only at the profile endpoint), login with a thin ID token (optional claims only at the profile endpoint), bearer token under a new key id, refresh (token / key-set / profile position), refresh with a thin ID token, wrongly typed claims also in bearer tokens of an extra JWT issuer, " +
-		"refresh with an expired old ID token (re-validation), start-up discovery} x every identity-provider call position x response kind (structural faults, tolerated oddities, wrongly typed claims); " +
+		"refresh with an expired old ID token (re-validation), re-validation of a stale session at the validation URL of a provider without refresh support, start-up discovery} x every identity-provider call position x response kind (structural faults, tolerated oddities, wrongly typed claims); " +
 		"each case is followed by a clean login on the same instance. cell = (flow, position, kind, instance); non-trivial = the proxy actually made the call that was faulted")
 	run.Assume("the proxy's HTTP client has no timeout of its own (verified: stalls end when the provider answers or resets); stalls are therefore followed by a reset / a 500",
 		"profile endpoint values differ from token values", "the global pkg/clock mock is set only while the stale sessions are created (no other activity)")
@@ -1090,6 +1422,9 @@ func TestVerif_C14(t *testing.T) {
 				if f.flow == "startup" && (k.Heavy || k.Mutate != nil) {
 					continue
 				}
+				if k.GiveUp && f.flow != "refresh" && f.flow != "refresh-thin" {
+					continue
+				}
 				if f.flow == "refresh-old-token-expired" && !thorough && ki%3 != int(run.Env.Seed)%3 {
 					continue
 				}
@@ -1135,6 +1470,24 @@ func TestVerif_C14(t *testing.T) {
 			}
 		}
 	}
+	// legacy provider re-validation: its own world, every scripted reply kind at the validation position
+	var legacyCases []c14Case
+	for ki := range kinds {
+		k := &kinds[ki]
+		if k.Reply == nil || !applies(k, "userinfo") {
+			continue
+		}
+		if k.Heavy && !thorough && !strings.HasPrefix(k.Name, "stall-then-reset") {
+			continue
+		}
+		stores := []string{"cookie", "redis"}
+		if !thorough && !k.GiveUp {
+			stores = []string{stores[(ki+int(run.Env.Seed))%2]}
+		}
+		for _, st := range stores {
+			legacyCases = append(legacyCases, c14Case{Flow: "legacy-revalidate", Pos: "userinfo", Kind: k.Name, Store: st, kind: k})
+		}
+	}
 	rng.Shuffle(len(cases), func(a, b int) { cases[a], cases[b] = cases[b], cases[a] })
 	// the short-lived-token flow waits for expiry: run those last in each world
 	sort.SliceStable(cases, func(a, b int) bool {
@@ -1143,9 +1496,26 @@ func TestVerif_C14(t *testing.T) {
 
 	// worlds
 	worlds := make([]*c14World, nWorlds)
+	// cases are dealt to the least loaded world (stalls and 16 MB bodies cost seconds under the race detector, the rest
+	// milliseconds); deterministic for a given case list
 	per := make([][]c14Case, nWorlds)
-	for i, c := range cases {
-		per[i%nWorlds] = append(per[i%nWorlds], c)
+	load := make([]float64, nWorlds)
+	for _, c := range cases {
+		cost := 0.05
+		if c.kind != nil && (c.kind.Heavy || c.kind.GiveUp) {
+			cost = 4
+		}
+		if c.Flow == "refresh-old-token-expired" {
+			cost = 0.7
+		}
+		best := 0
+		for i := range load {
+			if load[i] < load[best] {
+				best = i
+			}
+		}
+		load[best] += cost
+		per[best] = append(per[best], c)
 	}
 	common := []string{"--cookie-refresh=1m", "--skip-jwt-bearer-tokens=true", "--pass-access-token=true", "--pass-authorization-header=true"}
 	for i := range worlds {
@@ -1155,14 +1525,30 @@ func TestVerif_C14(t *testing.T) {
 		w.IdP.Set(func(c *vfIdPCfg) { c.TokenResponseMutate = cw.recordLast })
 		cw.px["cookie"] = w.MustProxy(common...)
 		cw.px["redis"] = w.MustProxy(append([]string{"--session-store-type=redis", "--redis-connection-url=" + w.RedisURL()}, common...)...)
-		cw.px["azp"] = w.MustProxy(append([]string{"--oidc-audience-claim=azp"}, common...)...)
+		cw.px["azp"] = w.MustProxy(append([]string{"--oidc-audience-claim=azp", "--oidc-audience-claim=aud"}, common...)...)
 		cw.idp2 = vfNewIdP()
 		defer cw.idp2.Close()
 		cw.px["extra"] = w.MustProxy(append([]string{"--extra-jwt-issuers=" + cw.idp2.Issuer + "=aud2"}, common...)...)
 		worlds[i] = cw
 	}
+	leakRun, leakClose := r.leakSetup(t)
+	defer leakClose()
+	lwWorld := vfNewWorld(t)
+	defer lwWorld.Close()
+	lw := &c14World{idx: 99, w: lwWorld, px: map[string]*vfProxy{}, stale: map[string][]*c14Stale{}}
+	lwWorld.IdP.Set(func(c *vfIdPCfg) { c.TokenResponseMutate = lw.recordLast })
+	{
+		iss := lwWorld.IdP.Issuer
+		legacy := []string{"--provider=keycloak", "--login-url=" + iss + "/authorize", "--redeem-url=" + iss + "/token", "--profile-url=" + iss + "/userinfo", "--validate-url=" + iss + "/userinfo",
+			"--scope=openid", "--cookie-refresh=1m", "--pass-access-token=true"}
+		lw.px["cookie"] = lwWorld.MustProxy(legacy...)
+		lw.px["redis"] = lwWorld.MustProxy(append([]string{"--session-store-type=redis", "--redis-connection-url=" + lwWorld.RedisURL()}, legacy...)...)
+	}
 	// phase 1: stale sessions (global clock mock; nothing else runs)
 	clock.Set(time.Now().Add(-10 * time.Minute))
+	for _, c := range legacyCases {
+		lw.stale[c.Store] = append(lw.stale[c.Store], lw.makeLegacyStale(c.Store))
+	}
 	vfParallel(nWorlds, nWorlds, func(i int) {
 		cw := worlds[i]
 		for _, c := range per[i] {
@@ -1195,10 +1581,36 @@ func TestVerif_C14(t *testing.T) {
 	})
 	clock.Reset()
 
-	// phase 2
+	// phase 2 (the legacy world runs next to the others)
+	var lwg sync.WaitGroup
+	lwg.Add(2)
+	phase := map[string]float64{}
+	var phaseMu sync.Mutex
+	took := func(name string, t0 time.Time) {
+		phaseMu.Lock()
+		phase[name] = time.Since(t0).Seconds()
+		phaseMu.Unlock()
+	}
+	tPhase2 := time.Now()
+	phase["setup_and_stale_sessions"] = time.Since(run.start).Seconds()
+	go func() {
+		// connection leak monitor: own world and servers, its connection counts are not touched by the other worlds
+		defer lwg.Done()
+		defer took("leak_monitor", time.Now())
+		leakRun()
+	}()
+	go func() {
+		defer lwg.Done()
+		defer took("legacy_world", time.Now())
+		for _, c := range legacyCases {
+			r.legacyCase(lw, c)
+			lw.w.Up.Reset()
+		}
+	}()
 	vfParallel(nWorlds, nWorlds, func(i int) {
 		cw := worlds[i]
 		for _, c := range per[i] {
+			tc := time.Now()
 			switch c.Flow {
 			case "login-newkid", "login-profile", "login-thin", "login-typed-claims":
 				r.loginCase(cw, c)
@@ -1207,9 +1619,18 @@ func TestVerif_C14(t *testing.T) {
 			case "refresh", "refresh-thin", "refresh-typed-claims", "refresh-old-token-expired":
 				r.refreshCase(cw, c)
 			}
+			if d := time.Since(tc); d > 700*time.Millisecond {
+				phaseMu.Lock()
+				phase[fmt.Sprintf("slow case w%d %s|%s|%s|%s", i, c.Flow, c.Pos, c.Kind, c.Store)] = d.Seconds()
+				phaseMu.Unlock()
+			}
 			cw.w.Up.Reset()
 		}
+		took(fmt.Sprintf("world_%d", i), tPhase2)
 	})
+	took("worlds_phase2", tPhase2)
+	lwg.Wait()
+	tPhase3 := time.Now()
 	// phase 3: start-up discovery faults, one at a time (building an instance excludes all request serving)
 	for i := range worlds {
 		for _, c := range per[i] {
@@ -1218,10 +1639,14 @@ func TestVerif_C14(t *testing.T) {
 			}
 		}
 	}
+	took("startup_phase3", tPhase3)
+	phaseMu.Lock()
+	run.Extra("phase_seconds", phase)
+	phaseMu.Unlock()
 	if run.Counter("clean_logins") < 50 {
 		run.Inconclusive("too few clean logins")
 	}
-	run.Extra("cases", len(cases))
+	run.Extra("cases", len(cases)+len(legacyCases))
 	run.RaceCheck("")
 	run.Finish(int64(len(cases))/2, run.Env.Pick(120, 300))
 }
